@@ -13,6 +13,8 @@ Streams (model `Wpull.Warc` vs the real code in ctx.repo):
             sessions' event methods (see warc_common.py); files read back by an
             independent strict gzip / WARC reader, digests recomputed with hashlib
   client    oracle only: the real HTTP client + recorder over harness/fakenet.py
+  app       oracle only: the real Application.run + pipelines + WARCRecorderTeardownTask; fatal error with sessions in flight
+  processor oracle only: the real WebProcessor + robots.txt fetch; ENOSPC in the warcinfo append of a size roll-over
   mixed     oracle only: one recorder listening to the real FTP and HTTP clients; fetches that fail at every stage
 """
 import io
@@ -491,6 +493,12 @@ def replay(ctx, case, kind=None, where=None):
     s = case.get('stream')
     if s == 'scenario':
         stream_recorder(ctx, [case['scenario']], pid=ctx.pid)
+    elif s == 'app':
+        from engines import warc_app
+        warc_app.check_app(ctx, case['app'])
+    elif s == 'processor':
+        from engines import warc_app
+        warc_app.check_processor(ctx, case['processor'])
     elif s == 'mixed':
         from engines import warc_client
         warc_client.check_mixed(ctx, case['mixed'], ctx.pid)
@@ -524,6 +532,9 @@ def run(ctx):
     from engines import warc_client
     warc_client.stream_client(ctx, ctx.scale(200, 3000), PID)
     warc_client.stream_mixed(ctx, ctx.scale(150, 2000), PID)
+    from engines import warc_app
+    warc_app.stream_app(ctx, ctx.scale(80, 1000))
+    warc_app.stream_processor(ctx, ctx.scale(80, 1000))
 
 
 def search(ctx):
